@@ -43,6 +43,11 @@ def gen(rng, k):
         else:
             vals = [rng.choice([0, (1 << (8 * size)) - 1, 1 << (8 * size - 1), rng.getrandbits(8 * size)]) for _ in range(count)]
             ops.append(dict(kind='write', values=vals, size=size, timeout=3, gap=0.4, **same))
+    if rng.random() < 0.3:
+        # the serving application answers reads directly from its notification callback (no thread of its own)
+        for o in ops:
+            if o['kind'] == 'read':
+                o['respond_inline'] = True
     sc = dict(kind='dm14', ops=ops, seedkey=seedkey, seeds=[rng.choice([0x0001, 0xFFFE, 0xA55A, rng.randint(1, 0xFFFE)]) for _ in range(10)],
               lat=[rng.choice([1, 500, 5000])], horizon=1000 + len(ops) * 8_000_000, max_cmdt=rng.choice([1, 3, 8, 255]))
     # the two ECUs need not be configured alike: the window of a multi-packet DM16 is negotiated between them
